@@ -1045,6 +1045,69 @@ pub fn directed() -> Vec<Request> {
             }
         }
     }
+    // numeric thresholds: field / variant / parameter counts around 10, 13, 32, 64, 128, 256, 300
+    for n in [10usize, 13, 32, 33, 64, 65, 128, 129, 255, 256, 257, 300] {
+        let tuple_fields: Vec<String> = (0..n).map(|i| if i % 5 == 0 { "T".to_string() } else { "u8".to_string() }).collect();
+        let named_fields: Vec<String> = (0..n).map(|i| format!("f{i}: u8")).collect();
+        let unit_variants: Vec<String> = (0..n).map(|i| format!("V{i}")).collect();
+        let mixed_variants: Vec<String> = (0..n).map(|i| match i % 3 { 0 => format!("V{i}"), 1 => format!("V{i}(u8, T)"), _ => format!("V{i} {{ a: u8 }}") }).collect();
+        let items = [
+            format!("struct X<T>({});", tuple_fields.join(", ")),
+            format!("struct X {{ {} }}", named_fields.join(", ")),
+            format!("enum X {{ #[default] {} }}", unit_variants.join(", ")),
+            format!("enum X<T> {{ #[default] {} }}", mixed_variants.join(", ")),
+        ];
+        for item in items {
+            for list in ["Clone, Debug, Default, Ord, PartialOrd, Eq, PartialEq, Hash", "Add, Neg, SubAssign", "PartialOrd, PartialEq", "Hash, Debug(dump)"] {
+                out.push(Request { mode: Mode::Attr, attr: list.into(), item: item.clone() });
+            }
+            out.push(Request { mode: Mode::Derive, attr: String::new(), item: format!("#[derive_ex(Clone, PartialOrd, PartialEq, Hash, Default)] {item}") });
+        }
+        if n <= 129 {
+            let params: Vec<String> = (0..n).map(|i| format!("P{i}")).collect();
+            let preds: Vec<String> = (0..n).map(|i| format!("P{i}: Copy")).collect();
+            out.push(Request { mode: Mode::Attr, attr: "Clone, PartialEq, Add".into(), item: format!("struct X<{}>(P0, P{}) where {};", params.join(", "), n - 1, preds.join(", ")) });
+            out.push(Request { mode: Mode::Attr, attr: format!("Clone(bound({}))", params.join(", ")), item: format!("struct X<{}>(P0);", params.join(", ")) });
+        }
+    }
+    // depth: types, bound(..) contents and helper expressions nested 8 / 20 / 40 levels
+    for depth in [8usize, 20, 40] {
+        let wrap = |open: &str, close: &str, core: &str| -> String { format!("{}{core}{}", open.repeat(depth), close.repeat(depth)) };
+        let types = [
+            wrap("&", "", "T"),
+            wrap("Option<", ">", "T"),
+            wrap("(", ",)", "T"),
+            wrap("[", "; 1]", "T"),
+            wrap("(", ")", "T"),
+            wrap("fn(", ")", "T"),
+            wrap("*const ", "", "T"),
+            wrap("Box<dyn Fn(", ")>", "T"),
+            wrap("&'a mut ", "", "(dyn A + B)"),
+            wrap("X<", ", u8>", "T"),
+        ];
+        for ty in &types {
+            out.push(Request { mode: Mode::Attr, attr: TRAITS.join(", "), item: format!("struct X<'a, T>({ty});") });
+            out.push(Request { mode: Mode::Derive, attr: String::new(), item: format!("#[derive_ex(Clone, Debug, Default, PartialOrd, PartialEq, Hash)] enum X<'a, T> {{ A({ty}), #[default] B {{ b: {ty} }} }}") });
+            out.push(Request { mode: Mode::Attr, attr: format!("Clone(bound({ty})), Default(bound({ty}: Default, ..))"), item: "struct X<'a, T>(T, &'a u8);".into() });
+            out.push(Request { mode: Mode::Attr, attr: "Add, AddAssign".into(), item: format!("impl<'a, T> Add<{ty}> for {ty} {{ type Output = {ty}; }}") });
+        }
+        let exprs = [
+            wrap("(", ")", "$"),
+            wrap("{ ", " }", "$"),
+            wrap("f(", ")", "$"),
+            wrap("|a| ", "", "$"),
+            wrap("&", "", "$"),
+            wrap("-", "", "1"),
+            wrap("[", "]", "1"),
+            wrap("if c { ", " } else { 0 }", "1"),
+            wrap("m!(", ")", "$"),
+        ];
+        for e in &exprs {
+            out.push(Request { mode: Mode::Attr, attr: "Ord, PartialOrd, Eq, PartialEq, Hash".into(), item: format!("struct X(#[ord(key = {e})] u8, #[hash(by = {e})] u8);") });
+            let v = e.replace('$', "1");
+            out.push(Request { mode: Mode::Attr, attr: "Default".into(), item: format!("#[default({v})] struct X(#[default({v})] u8);") });
+        }
+    }
     // normalise to the printed token form and drop what is not a valid request
     let mut res = Vec::new();
     let mut seen = std::collections::BTreeSet::new();
